@@ -309,6 +309,10 @@ func (fw *FileWriter) flushLocked() error {
 		return err
 	}
 	if _, err := fw.file.Write(fw.header.Serialize()); err != nil {
+		// The block is complete; only the counters in the file header are stale. Put the write
+		// position back behind the block: left inside the header, the next block would be
+		// written over the header and the file would no longer load.
+		_, _ = fw.file.Seek(currentPos, io.SeekStart)
 		return err
 	}
 	if _, err := fw.file.Seek(currentPos, io.SeekStart); err != nil {
@@ -349,6 +353,8 @@ func (fw *FileWriter) Sync() error {
 	}
 
 	if _, err := fw.file.Write(fw.header.Serialize()); err != nil {
+		// Same as in flushLocked: never leave the write position inside the header.
+		_, _ = fw.file.Seek(0, io.SeekEnd)
 		return err
 	}
 
